@@ -24,4 +24,6 @@ def run(ctx):
     k_req(ctx, K)
     k5(ctx, K)
     queryvar.pair_quoting(ctx, roles(ctx.model))
+    from ..rules import flow
+    flow.f_defaults(ctx)        # `encoded` defaults to False: unflagged text is always quoted
     ctx.assumptions += ["the compiled .so is built from the analysed .pyx", "CPython ast / Cython 3.0 parser are correct"]
